@@ -31,6 +31,10 @@ def main():
     sel = sys.argv[1:]
     results_path = os.path.join(HERE, "results.json")
     results = json.load(open(results_path)) if os.path.exists(results_path) else {}
+    # the checks run from a snapshot of /verif's HEAD, so that /verif can be edited meanwhile
+    snap = tempfile.mkdtemp(prefix="verif_snap_", dir="/tmp")
+    os.rmdir(snap)
+    subprocess.run(["git", "-C", VERIF, "worktree", "add", "-q", "--detach", snap, "HEAD"], check=True)
     wt = tempfile.mkdtemp(prefix="sens_wt_", dir="/tmp")
     os.rmdir(wt)
     code, out = sh(["git", "-C", "/repo", "worktree", "add", "-q", "--detach", wt, "HEAD"])
@@ -60,7 +64,7 @@ def main():
             fails = sorted(set(re.findall(r"--- FAIL: (\S+)", out)))
             fails = [f for f in fails if f not in ("TestMigrateLedgerV1",)]
             tests_ok = not fails
-            code, out = sh([os.path.join(VERIF, "check"), prop, "quick"], cwd=VERIF, env=dict(os.environ, VERIF_REPO=wt))
+            code, out = sh([os.path.join(snap, "check"), prop, "quick"], cwd=snap, env=dict(os.environ, VERIF_REPO=wt))
             lines = out.strip().splitlines()
             viol = [l for l in lines if l.startswith("VIOLATION")]
             cls = [l for l in lines if l.startswith("violation class=")]
@@ -76,6 +80,7 @@ def main():
                     os.remove(rp)
     finally:
         sh(["git", "-C", "/repo", "worktree", "remove", "--force", wt])
+        sh(["git", "-C", VERIF, "worktree", "remove", "--force", snap])
     json.dump(results, open(results_path, "w"), indent=1, sort_keys=True)
 
 
